@@ -35,9 +35,11 @@ func suiteAllocPanic(c *Ctx) {
 // allocfault: a SLOW Allocate call (a schedule: the thread is parked inside the reporter), run by the checks of C01,
 // C02, C03, C08, C09 and C10
 func suiteAllocFault(c *Ctx) {
-	c.Cov.Rule = "a SLOW allocation: a first use of a new histogram name parked inside AllocateHistogram while the scope's final report runs (collection of the closed scope, or the root's Close): the samples recorded on an already registered histogram of that scope must be delivered; and, per kind, a second thread asking for the name whose first use is parked inside Allocate, plus a pass: nothing half-built is handed out or reported (no panic, one Allocate, the second thread's recording delivered); every case nontrivial"
-	c09SlowAlloc(c, false)
-	c09SlowAlloc(c, true)
+	c.Cov.Rule = "a SLOW allocation: per kind (histogram, counter, gauge) a first use of a new name parked inside the reporter's Allocate call (under that kind's lock of the scope) while the scope's final report runs (collection of the closed scope, or the root's Close): what was recorded on an already registered metric of that kind of that scope must be delivered; and, per kind, a second thread asking for the name whose first use is parked inside Allocate, plus a pass: nothing half-built is handed out or reported (no panic, one Allocate, the second thread's recording delivered); every case nontrivial"
+	for _, kind := range []string{"histogram", "counter", "gauge"} {
+		c09SlowAlloc(c, false, kind)
+		c09SlowAlloc(c, true, kind)
+	}
 	for _, kind := range []string{"counter", "gauge", "timer", "histogram"} {
 		c09SlowFirstUse(c, kind)
 	}
@@ -224,6 +226,7 @@ func suiteC09(c *Ctx) {
 		var wg sync.WaitGroup
 		var mu sync.Mutex
 		ptrs := map[string]map[interface{}]bool{}
+		hsamples := map[string]int64{} // duration samples recorded per histogram (all goroutines hit the same buckets at once)
 		stop := make(chan struct{})
 		passesDone := make(chan struct{})
 		go func() {
@@ -252,6 +255,7 @@ func suiteC09(c *Ctx) {
 					sc.Timer(name)
 					sc.Histogram(name, nil).RecordDuration(time.Millisecond)
 					mu.Lock()
+					hsamples[sub+"."+name]++
 					key := sub + "." + name
 					if ptrs[key] == nil {
 						ptrs[key] = map[interface{}]bool{}
@@ -269,6 +273,24 @@ func suiteC09(c *Ctx) {
 		tally.VerifReportOnce(w.root)
 		w.trace = []string{"stress"}
 		w.checkConservation(c, "C09", "c09-stress")
+		// ... and "everything recorded through any of the returned handles is delivered" for the histograms: the bucket
+		// counts delivered add up to the samples recorded (8 goroutines record the FIRST samples of one bucket at once)
+		hgot := map[string]int64{}
+		for _, e := range w.log().Snapshot() {
+			switch e.Kind {
+			case "hdur", "hval":
+				hgot[e.Name] += e.I
+			case "samples":
+				hgot[w.recC.Meta[e.ID].Name] += e.I
+			}
+		}
+		for key, n := range hsamples {
+			if hgot[key] != n {
+				c.Cov.Fail(Failure{Kind: "violated", Clause: "recorded-through-any-handle-delivered", Signature: "c09-stress-histogram-samples", Line: key,
+					Reply: fmt.Sprintf("histogram %s: %d duration samples recorded by 8 goroutines, %d delivered", key, n, hgot[key])})
+				break
+			}
+		}
 		for key, m := range ptrs {
 			if len(m) != 1 {
 				c.Cov.Fail(Failure{Kind: "violated", Clause: "all-callers-same-object", Signature: "c09-stress", Line: key, Reply: fmt.Sprintf("%d distinct counter objects", len(m))})
@@ -374,25 +396,43 @@ func c09AllocFault(c *Ctx, kind string, onSub bool) {
 // pass collects it, or the root is being closed.  What had been recorded on an already registered histogram of that
 // scope must still be delivered ("everything recorded through any of the returned handles is delivered"): the pass has
 // to wait for the registration, it may not skip the scope's histograms and then clear them.
-func c09SlowAlloc(c *Ctx, viaRootClose bool) {
+func c09SlowAlloc(c *Ctx, viaRootClose bool, kind string) {
 	rc := newRecCached()
 	rc.log.Pre = func(e *Ev) {
-		if e.Kind == "alloc-hist" && strings.HasSuffix(e.Name, "slow") {
+		if strings.HasPrefix(e.Kind, "alloc") && strings.HasSuffix(e.Name, "slow") {
 			hook("rep.alloc-slow", "")
 		}
 	}
 	root, closer := tally.VerifNewRootScope(tally.ScopeOptions{CachedReporter: rc, OmitCardinalityMetrics: true}, 0, 1)
 	sc := root.SubScope("s")
-	h1 := sc.Histogram("h1", tally.ValueBuckets{1, 2})
-	h1.RecordValue(1.5)
-	h1.RecordValue(1.5)
+	// two recordings on an already registered metric of the same kind (same per-kind lock as the slow first use)
+	switch kind {
+	case "counter":
+		sc.Counter("h1").Inc(1)
+		sc.Counter("h1").Inc(1)
+	case "gauge":
+		sc.Gauge("h1").Update(2)
+	default:
+		h1 := sc.Histogram("h1", tally.ValueBuckets{1, 2})
+		h1.RecordValue(1.5)
+		h1.RecordValue(1.5)
+	}
 	s := NewSched(nil)
 	s.ParkOnT = func(th, l string) bool { return th == "A" && l == "rep.alloc-slow" }
 	s.Timeout = 300 * time.Millisecond
-	A := s.Spawn("A", func() { sc.Histogram("slow", tally.ValueBuckets{5}) })
+	A := s.Spawn("A", func() {
+		switch kind {
+		case "counter":
+			sc.Counter("slow")
+		case "gauge":
+			sc.Gauge("slow")
+		default:
+			sc.Histogram("slow", tally.ValueBuckets{5})
+		}
+	})
 	l0 := runUntil(s, A, func(l, _ string) bool { return l == "rep.alloc-slow" })
 	var trace []string
-	trace = append(trace, "2 samples on s.h1; A: first use of s.slow parked inside AllocateHistogram ("+l0+")")
+	trace = append(trace, "recorded 2 on s.h1 ("+kind+"); A: first use of s.slow parked inside the reporter's Allocate ("+l0+")")
 	var P *Thr
 	if viaRootClose {
 		P = s.Spawn("P", func() { closer.Close() })
@@ -417,16 +457,22 @@ func c09SlowAlloc(c *Ctx, viaRootClose bool) {
 	}
 	n := int64(0)
 	for _, e := range rc.log.Snapshot() {
-		if e.Kind == "samples" && strings.HasSuffix(rc.Meta[e.ID].Name, "h1") {
+		if !strings.HasSuffix(rc.Meta[e.ID].Name, "h1") {
+			continue
+		}
+		switch e.Kind {
+		case "samples", "counter":
 			n += e.I
+		case "gauge":
+			n += int64(e.F)
 		}
 	}
 	line := strings.Join(trace, " | ")
 	if n != 2 {
 		c.Cov.Fail(Failure{Kind: "violated", Clause: "recorded-is-delivered", Signature: "c09-final-report-during-slow-first-use", Line: line,
-			Reply: fmt.Sprintf("2 samples were recorded on s.h1 before the final report of s; %d were delivered", n)})
+			Reply: fmt.Sprintf("2 had been recorded on s.h1 (%s) before the final report of s; %d delivered", kind, n)})
 	}
-	c.Cov.Hit(fmt.Sprintf("slow-alloc.root-close=%v", viaRootClose))
+	c.Cov.Hit(fmt.Sprintf("slow-alloc.%s.root-close=%v", kind, viaRootClose))
 	c.Cov.Eval(line, true)
 	c.Cov.Schedules++
 }
